@@ -41,15 +41,25 @@ RULE = (
     "shape, rows, to_list) with the same operation on the list of rows, a result's index_name must be readable and, when set, name the "
     "first column with unique values (dropped after cross_join, transposed and selections without the index column, kept by get_columns "
     "and selections with it), and the receiver is re-observed to be unchanged. roundtrip: a generated table (text cells over letters, digits, blank, comma, tab, both "
-    "quotes, '|', ';', plus empty, blank-edged and literal-looking cells) is written with Table.write as tsv, csv, tsv.gz, csv.gz, csv.bz2, "
-    "txt with sep ';' or '|', json, pickle and loaded with load_table, and rendered with to_csv/to_tsv and parsed with load_delimited. "
+    "quotes, '|', ';', line feed and carriage return, plus empty, blank-edged and literal-looking cells and digit strings longer than an int64; int cells up to 1e12 "
+    "and a few beyond the int64 range) is written with Table.write as tsv, csv, tsv.gz, csv.gz, csv.bz2, tsv.bz2, "
+    "txt with sep ';' or '|', json, pickle and loaded with load_table, and rendered with to_csv/to_tsv and parsed with load_delimited; per case one further "
+    "way of calling Table.write is exercised: writer=separator_formatter(sep), compress=True (tsv, csv, json, pickle: the .gz file must exist, be gzip data and load), "
+    "pickle.gz/json.gz by suffix, format= on a name without suffix (csv, tsv, json, pickle), sep= alone on a name without suffix and on a .tsv name. "
+    "chain: tables as for ops; a first operation (inner_join, cross_join, appended, transposed, filtered, sorted; on the plain or the indexed table) is compared "
+    "with the model, then its result is the receiver of two further generated operations (any of the ops list, each compared with the model of that operation "
+    "applied to the model of the intermediate result, which is re-observed afterwards) and is written and loaded in two of tsv, csv, tsv.gz, csv.bz2, txt+sep, json, pickle. "
     "Non-trivial (ops) = at least 2 rows, a duplicated key value, at least two column kinds and at least one operation evaluated; "
-    "non-trivial (roundtrip) = a text cell containing a delimiter or quote character, or at least 2 rows with a numeric and a text column. "
+    "non-trivial (roundtrip) = a text cell containing a delimiter, quote or line break character, or at least 2 rows with a numeric and a text column; "
+    "non-trivial (chain) = an intermediate result of at least 2 rows and 2 columns that went through at least two further steps. "
     "Distinct = distinct case encodings."
 )
 ASSUMPTIONS = [
-    "column names are unique, non-empty and carry no leading/trailing blanks (Columns strips names); no newline or carriage return in names or cells; all text is ASCII",
-    "floats are finite (no nan/inf); integers fit easily in int64; numeric cells are compared by value with ==, bool/number/str/None classes must agree (an int column appended to a float column may come back as float of equal value)",
+    "column names are unique, non-empty and carry no leading/trailing blanks (Columns strips names) and no line breaks; cells of the ops and chain sub-checks hold no line breaks; all text is ASCII",
+    "floats are finite (no nan/inf); integers of the ops and chain sub-checks fit easily in int64; numeric cells are compared by value with ==, bool/number/str/None classes must agree (an int column appended to a float column may come back as float of equal value)",
+    "round trip, line breaks: text cells may hold line feeds and carriage returns ('\\n', '\\r', '\\r\\n', anywhere in the cell); they are cell text like any other (the statement singles out cells that need quoting; the csv module, which the writer and reader use, quotes them) and must come back unchanged through Table.write + load_table and to_csv/to_tsv + load_delimited; failures of tables holding a carriage return carry the tag [cell-with-cr]",
+    "round trip, integers beyond int64: an int column may hold values outside [-2**63, 2**63) (make_table must hold them as integers, not as floats: checked under make_table[int-beyond-int64]); written as digits they must load as numbers of exactly that value (int, or float only when the float equals the integer); tables holding such integers or digit strings carry the tag [integer-beyond-int64] in the delimited signatures",
+    "round trip, text column that is all digits: the library casts such a column to numbers by design (cast_str_to_array: int, else float, else complex, pinned by test_cast_str_to_array), so 'same cell' means: the loaded value is a number that Python's int()/float() reads from the written text ('00000000000000000000001' -> 1, a 30-digit string -> that integer or the float float() gives for it), or the text itself; loading must never raise whatever the length of the digit string",
     "sort keys are columns without missing values; reverse columns are a subset of the sort columns (or given alone); sorting is asked only of tables with at least one row; ties are expected in original order (stable), reported under its own signature",
     "filter/count callbacks return genuine bool; ordering comparisons are only made on columns without missing values; string expressions are used only when all column names are identifiers",
     "the key columns of the two joined tables have the same kind (and value type for id columns); a key column may have another name in the second table; non-key column names of the second table do not collide with the first table's names or the prefix",
@@ -68,6 +78,11 @@ ASSUMPTIONS = [
     "title and legend are written by Table.write as extra first/last rows and are read back by passing with_title/with_legend; their own text is not asserted (the statement covers header and cells)",
     "to_csv/to_tsv are display formats honouring Table digits: float cells are compared to 0.5e-4 absolute (relative 1e-12 for large values), None cells are not compared",
     "write(format) is exercised for the documented suffixes tsv, csv, txt(+sep), json, pickle and the compression suffixes gz, bz2; the 'pkl' suffix is only a reader alias and is not written",
+    "write(compress=True) (docstring: 'gzips the file and appends .gz to the filename (if not already added)'): the file name + '.gz' must exist and start with the gzip magic, the uncompressed name must not be left behind, and load_table of the .gz file returns the table; asked for tsv, csv, json and pickle (the docstring makes no exception for a format)",
+    "write(format=...) on a name without suffix (docstring: 'Will try and guess from filename if not specified'): csv/tsv are read back with load_table(path, sep=...), json/pickle through a copy of the file that carries the suffix (load_table picks the reader by suffix); write(sep=...) alone overrides the separator a suffix implies ('a character delimiter for fields')",
+    "write(writer=...) (docstring: 'a function for formatting the data for output'): the writers the library offers are made by format.table.separator_formatter ('Returns a writer for a delimited tabular file. The writer has a has_header argument ... Default format is string. Does not currently handle Titles or Legends'); expected file = header line and one line per row, cells as str() joined by sep; asked only of tables with at least two columns whose text holds no quote or line break and leaves one of ',', tab, ';', '|' unused (the formatter does no quoting); None cells are not compared",
+    "chain: the model of an intermediate result is the model of the first operation; whether the result keeps an index is read from the result (where documented it is asserted first) and the model lists the index column first accordingly; title and legend of the intermediate result are read from it (they decide with_title/with_legend on loading and the text of an appended source column); the table appended in a chain holds, per column, the receiver's kind of number and type of id (a mixed int/float column would leave open whether a cell prints as 5 or 5.0 in a later transposition: the unspecified corner of values that are equal but print differently); a first-step transposed is asked of tables with an id column and 1-3 further columns of one kind",
+    "sorting is stable (the statement's list-of-rows model: list.sort keeps ties in order; why_tests_cant: 'stable multi-key sorting'); ties of tables with more than 16 rows are reported under sorted/tie-order[more-than-16-rows]",
 ]
 
 SCRATCH = os.path.join(os.path.dirname(os.path.dirname(os.path.abspath(__file__))), ".scratch")
@@ -83,12 +98,32 @@ TEXT_TOKENS = [
     "", "", " ", "True", "None", "12", "1e5", "j", "nan", "0012", '"', "''", '"x"', "a,b", "1,2", 'say "hi"', "it's", " lead",
     "trail ", "\t", "id", "N/A", "-", "#c", "a\tb", "x;y", "p|q", ',"', '",', "a, b", "'q", "1|2", "abs", "1/0",
 ]
+# round trip only: digit strings and integers beyond the int64 range, cells holding line breaks
+RT_TOKENS = [
+    "123456789012345678901234567890", "00000000000000000000001", "9223372036854775808", "-9223372036854775809", "18446744073709551616",
+    "123456789012345678901234567890", "00000000000000000000001", "a\nb", "cr\rhere", "x\r\ny", "\n", "\r", "\r\n", "end\n", "end\r", "\nstart", "two\n\nbreaks", "a,\nb",
+    '"\n', "1\n", "a\tb\rc",
+]
+BIG_INTS = [2**63, 2**63 + 1, 2**64, 2**64 + 1, -(2**63) - 1, 10**30, 2**63 - 1, -(2**63), 123456789012345678901234567890]
+INT64 = (-(2**63), 2**63 - 1)
 NICE_FLOATS = [0.0, 0.5, -1.0, 2.5, 1e-7, -2.5e10, 1e22, 0.1, 3.0, 1234.5678, -0.25, 1.5e-300, 6.02e23, 1.0]
 KEY_S_VALUES = ["a", "b", "c", "ab", "B"]
 
 
 # ------------------------------------------------------------- generators
-def _cell(kind):
+def _cell(kind, rt=False):
+    """rt: cells of the round trip sub-check (long digit strings, integers beyond int64, line breaks in text)"""
+    if kind == "int" and rt:
+        return st.one_of(st.integers(-5, 5), st.integers(-10**12, 10**12), st.integers(-5, 5), st.sampled_from(BIG_INTS))
+    if kind == "text" and rt:
+        return st.one_of(
+            st.sampled_from(TEXT_TOKENS),
+            st.text(alphabet=TEXT_ALPHABET, min_size=0, max_size=6),
+            st.sampled_from(TEXT_TOKENS),
+            st.text(alphabet=TEXT_ALPHABET, min_size=0, max_size=6),
+            st.sampled_from(RT_TOKENS),
+            st.text(alphabet=TEXT_ALPHABET + "\n\r", min_size=1, max_size=6),
+        )
     if kind == "int":
         return st.one_of(st.integers(-5, 5), st.integers(-10**12, 10**12))
     if kind == "float":
@@ -105,14 +140,14 @@ def _cell(kind):
 
 
 @st.composite
-def _column(draw, kind, n, allow_missing, uid_prefix="r"):
+def _column(draw, kind, n, allow_missing, uid_prefix="r", rt=False):
     if kind == "uid":
         perm = draw(st.permutations(list(range(n)))) if n else []
         if draw(st.booleans()):
             return [f"{uid_prefix}{i}" for i in perm]
         off = draw(st.sampled_from([0, 1, 100]))
         return [i + off for i in perm]
-    vals = draw(st.lists(_cell(kind), min_size=n, max_size=n))
+    vals = draw(st.lists(_cell(kind, rt), min_size=n, max_size=n))
     if allow_missing and kind in ("int", "float", "text") and n and draw(st.integers(0, 3)) == 0:
         mask = draw(st.lists(st.integers(0, 2), min_size=n, max_size=n))
         vals = [None if m == 0 else v for v, m in zip(vals, mask)]
@@ -124,7 +159,7 @@ def _rows(cols, n):
 
 
 @st.composite
-def table_st(draw, max_rows=8, allow_missing=True, with_keys=True, min_rows=0, uid_weight=4):
+def table_st(draw, max_rows=8, allow_missing=True, with_keys=True, min_rows=0, uid_weight=4, rt=False):
     plain = draw(st.booleans())
     free_names = list(draw(st.permutations(ID_NAMES if plain else ID_NAMES[:4] + ODD_NAMES)))
     spec = []  # (name, kind)
@@ -141,7 +176,7 @@ def table_st(draw, max_rows=8, allow_missing=True, with_keys=True, min_rows=0, u
     spec = list(draw(st.permutations(spec)))
     n = draw(st.sampled_from([0, 1, 2, 3, 3, 4, 4, 5, 6, 7, 8]))
     n = max(min_rows, min(n, max_rows))
-    cols = [draw(_column(k, n, allow_missing)) for _, k in spec]
+    cols = [draw(_column(k, n, allow_missing, rt=rt)) for _, k in spec]
     return {"header": [nm for nm, _ in spec], "kinds": [k for _, k in spec], "rows": _rows(cols, n)}
 
 
@@ -153,8 +188,8 @@ def _uid_column(t):
 
 
 @st.composite
-def op_cases(draw):
-    t = draw(table_st(uid_weight=6))
+def op_cases(draw, first=None):
+    t = draw(table_st(uid_weight=6) if first is None else first)
     # second table: the key columns of the first (some under a different name), plus extras,
     # optionally a unique id column of the same value type as the first table's (usable as index)
     keys = [(nm, k) for nm, k in zip(t["header"], t["kinds"]) if k in ("ks", "ki")]
@@ -224,12 +259,63 @@ def op_cases(draw):
 
 @st.composite
 def rt_cases(draw):
-    t = draw(table_st(with_keys=draw(st.booleans())))
+    t = draw(table_st(with_keys=draw(st.booleans()), rt=True))
     t["title"] = draw(st.sampled_from(["", "", "", "My title", "A, B"]))
     t["legend"] = draw(st.sampled_from(["", "", "", "some legend", "x;y, z"]))
     t["index"] = draw(st.integers(0, 3)) == 0
-    return {"t": t, "sep": draw(st.sampled_from([";", "|"]))}
+    # "wv": which of the other ways of calling Table.write is exercised (see WRITE_VARIANTS)
+    return {"t": t, "sep": draw(st.sampled_from([";", "|"])), "wv": draw(st.integers(0, len(WRITE_VARIANTS) - 1))}
 
+
+# other ways of calling Table.write (one per case): (label, file name, keyword arguments, name of the file that must exist,
+# suffix to give a copy of the file so that load_table recognises it, strict comparison)
+WRITE_VARIANTS = [
+    ("writer", None, None, None, None, None),  # writer=separator_formatter(sep), see _write_with_writer
+    ("compress=True", "c.tsv", {"compress": True}, "c.tsv.gz", None, False),
+    ("compress=True", "c.csv", {"compress": True}, "c.csv.gz", None, False),
+    ("compress=True+json", "c.json", {"compress": True}, "c.json.gz", None, True),
+    ("compressed-pickle", "c.pickle", {"compress": True}, "c.pickle.gz", None, True),
+    ("compressed-pickle", "d.pickle.gz", {}, "d.pickle.gz", None, True),
+    ("json.gz", "d.json.gz", {}, "d.json.gz", None, True),
+    ("format=", "plain_csv", {"format": "csv"}, "plain_csv", ",", False),
+    ("format=", "plain_tsv", {"format": "tsv"}, "plain_tsv", "\t", False),
+    ("format=", "plain_json", {"format": "json"}, "plain_json", ".json", True),
+    ("format=", "plain_pickle", {"format": "pickle"}, "plain_pickle", ".pickle", True),
+    ("sep=", "plain_sep", {"sep": "SEP"}, "plain_sep", "SEP", False),
+    ("sep=", "named.tsv", {"sep": "SEP"}, "named.tsv", "SEP", False),
+    ("writer", None, None, None, None, None),
+]
+
+
+FIRST_OPS = ["inner_join", "inner_join", "appended", "appended", "transposed", "transposed", "filtered", "filtered", "cross_join", "sorted"]
+SAME_KIND = ["int", "float", "text", "bool", "ks", "ki"]
+
+
+@st.composite
+def transposable_st(draw):
+    """a table whose transpose has columns of one kind: a unique id column plus 1-3 columns of the same kind"""
+    plain = draw(st.booleans())
+    names = list(draw(st.permutations(ID_NAMES if plain else ID_NAMES[:3] + ODD_NAMES)))
+    kind = draw(st.sampled_from(SAME_KIND))
+    spec = [(UID[0] if plain else draw(st.sampled_from(UID)), "uid")] + [(names[i], kind) for i in range(draw(st.integers(1, 3)))]
+    spec = list(draw(st.permutations(spec)))
+    n = draw(st.integers(1, 5))
+    cols = [draw(_column(k, n, True)) for _, k in spec]
+    return {"header": [nm for nm, _ in spec], "kinds": [k for _, k in spec], "rows": _rows(cols, n)}
+
+
+@st.composite
+def chain_cases(draw):
+    """tables as for the ops sub-check; ops[0] is the first operation, ops[1:] are each applied to its result"""
+    first = draw(st.sampled_from(FIRST_OPS))
+    case = draw(op_cases(first=transposable_st() if first == "transposed" else table_st(uid_weight=6, max_rows=6)))
+    case["ops"][0]["op"] = first
+    case["formats"] = list(draw(st.permutations(CHAIN_FORMATS)))[:2]
+    case["sep"] = draw(st.sampled_from([";", "|"]))
+    return case
+
+
+CHAIN_FORMATS = ["t.tsv", "t.csv", "t.tsv.gz", "t.csv.bz2", "t.txt", "json", "pickle"]
 
 OPS = (
     ["sorted"] * 5
@@ -610,7 +696,8 @@ def op_sorted(s, step, t, j, p, T, J, P):
     s.check(same_rows, "sorted/row-multiset", f"{what}: got {got!r}")
     if same_rows:
         if s.check(keys_g == keys_w, "sorted/rows" + circ, f"{what}: key order got {keys_g!r} want {keys_w!r}"):
-            s.check(g == w, "sorted/tie-order", f"{what}: got {got!r} want {want!r}")
+            # (tables of more than 16 rows only arise in the chain sub-check, from joins)
+            s.check(g == w, "sorted/tie-order" + ("[more-than-16-rows]" if len(rows) > 16 else ""), f"{what}: got {got!r} want {want!r}")
     if len(cols) > 1 and rev and len(rev) < len(cols):
         s.cls("sorted:multi-key-partly-reversed")
     elif rev:
@@ -1181,6 +1268,212 @@ def op_observers(s, step, t, j, p, T, J, P):
     return True
 
 
+# ------------------------------------------------------------ chain sub
+def _result_model(header, kinds, rows, title=""):
+    kinds = list(kinds)
+    for ci, k in enumerate(kinds):
+        vals = [r[ci] for r in rows]
+        if k == "uid" and len({norm(v) for v in vals}) < len(vals):
+            # an id column whose values are repeated in the result is an ordinary column from here on
+            kinds[ci] = "text" if vals and isinstance(vals[0], str) else "int"
+    return {"header": list(header), "kinds": kinds, "rows": [list(r) for r in rows], "title": title}
+
+
+def _like_kinds(p, t):
+    """the table to append with every column holding the receiver's kind of number (for a chain the mixed
+    int/float column of the ops sub-check would leave open whether a cell prints as 5 or 5.0)"""
+    kind_of = dict(zip(t["header"], t["kinds"]))
+    id_text = {c: isinstance(t["rows"][0][ci], str) for ci, c in enumerate(t["header"]) if kind_of[c] == "uid" and t["rows"]}
+    q = dict(p)
+    q["kinds"] = [kind_of[c] for c in p["header"]]
+    rows = []
+    for r in p["rows"]:
+        row = []
+        for v, c, k in zip(r, p["header"], p["kinds"]):
+            want = kind_of[c]
+            if c in id_text and id_text[c] != isinstance(v, str):
+                # ids of the receiver's type
+                v = f"s{v}" if id_text[c] else 1000 + int(v[1:])
+            elif v is not None and want != k and want == "int":
+                v = int(v) if abs(v) < 1e12 else 7
+            elif v is not None and want != k and want == "float":
+                v = float(v)
+            row.append(v)
+        rows.append(row)
+    q["rows"] = rows
+    return q
+
+
+def first_step(s, step, t, j, p, T, J):
+    """runs the first operation of a chain; returns (result table, model of the result, index expectation) or None"""
+    header, rows, kinds = t["header"], t["rows"], t["kinds"]
+    op = step["op"]
+    lix = t.get("ix")
+    if op == "inner_join" and not key_pairs(t, j):
+        op = "cross_join"
+    if op == "transposed" and ("uid" not in kinds or not rows):
+        op = "filtered"
+    if op == "sorted" and not (rows and sortable_columns(t)):
+        op = "filtered"
+    if op == "filtered":
+        desc, columns, cb, model = build_predicate(t, step)
+        kw = {} if columns is None else {"columns": columns}
+        ok, res = s.call("filtered", lambda: T.filtered(cb, **kw))
+        m = _result_model(header, kinds, [r for r in rows if model(r)], t.get("title", ""))
+        return (res, m, "any" if lix else "skip", "filtered", f"filtered {desc} on {brief(t)}") if ok else None
+    if op == "sorted":
+        cand = sortable_columns(t)
+        cols = [cand[step["a"] % len(cand)]]
+        if len(cand) > 1 and step["f1"]:
+            cols.append(cand[(step["a"] + 1) % len(cand)])
+        rev = [ci for n, ci in enumerate(cols) if (step["c"] >> n) & 1]
+        kw = {"columns": [header[ci] for ci in cols]}
+        if rev:
+            kw["reverse"] = [header[ci] for ci in rev]
+        want = list(rows)
+        for ci in reversed(cols):
+            want.sort(key=lambda r, ci=ci: r[ci], reverse=ci in rev)
+        ok, res = s.call("sorted", lambda: T.sorted(**kw))
+        m = _result_model(header, kinds, want, t.get("title", ""))
+        return (res, m, "any" if lix else "skip", "sorted", f"sorted({kw!r}) on {brief(t)}") if ok else None
+    if op == "inner_join":
+        pairs = key_pairs(t, j)
+        if step["a"] % 2 and len(pairs) > 1:
+            pairs = [pairs[step["b"] % len(pairs)]]
+        ks, ko = [pr[0] for pr in pairs], [pr[1] for pr in pairs]
+        jh = j["header"]
+        li, ri = [header.index(x) for x in ks], [jh.index(x) for x in ko]
+        rest = [i for i, x in enumerate(jh) if x not in ko]
+        want = [list(r) + [q[i] for i in rest] for r in rows for q in j["rows"] if [r[i] for i in li] == [q[i] for i in ri]]
+        ok, res = s.call("inner_join", lambda: T.inner_join(J, columns_self=ks, columns_other=ko, col_prefix="L_"))
+        m = _result_model(list(header) + ["L_" + jh[i] for i in rest], list(kinds) + [j["kinds"][i] for i in rest], want)
+        return (res, m, "any" if lix else "skip", "inner_join", f"inner_join({ks!r}, {ko!r}) of {brief(t)} with {brief(j)}") if ok else None
+    if op == "cross_join":
+        want = [list(r) + list(q) for r, q in itertools.product(rows, j["rows"])]
+        sig = "cross_join" if want else "cross_join[zero-row]"
+        ok, res = s.call(sig, lambda: T.cross_join(J, col_prefix="L_"))
+        m = _result_model(list(header) + ["L_" + c for c in j["header"]], list(kinds) + list(j["kinds"]), want)
+        return (res, m, "dropped" if lix else "skip", sig, f"cross_join of {brief(t)} with {brief(j)}") if ok else None
+    if op == "appended":
+        q = _like_kinds(p, t)
+        ok, Q = s.call("make_table", make_real, q)
+        if not ok:
+            return None
+        new = "origin" if step["a"] % 2 else None
+        pos = [q["header"].index(c) for c in header]
+        prows = [[r[i] for i in pos] for r in q["rows"]]
+        if new is None:
+            want, wh, wk = [list(r) for r in rows + prows], list(header), list(kinds)
+        else:
+            want = [[t.get("title", "")] + list(r) for r in rows] + [[q.get("title", "")] + list(r) for r in prows]
+            wh, wk = [new] + list(header), ["text"] + list(kinds)
+        sig = "appended"
+        if lix:
+            ci = header.index(lix)
+            ids = [norm(r[ci]) for r in rows + prows]
+            if len(set(ids)) < len(ids):
+                sig = "appended[index-values-repeated]"
+        ok, res = s.call(sig, lambda: T.appended(new, Q))
+        m = _result_model(wh, wk, want)
+        return (res, m, "any" if lix else "skip", sig, f"appended({new!r}) of {brief(t)} with {brief(q)}") if ok else None
+    if op == "transposed":
+        ci = kinds.index("uid")
+        names = [str(r[ci]).strip() for r in rows]
+        others = [i for i in range(len(header)) if i != ci]
+        new = "field"
+        if new in names or not others:
+            return None
+        want = [[header[i]] + [r[i] for r in rows] for i in others]
+        kind = kinds[others[0]]
+        sig = "transposed[indexed, other column as header]" if lix and header[ci] != lix else "transposed"
+        ok, res = s.call(sig, lambda: T.transposed(new, select_as_header=header[ci]))
+        m = _result_model([new] + names, ["uid"] + [kind] * len(names), want)
+        return (res, m, "dropped" if lix else "skip", sig, f"transposed({new!r}, {header[ci]!r}) of {brief(t)}") if ok else None
+    raise ValueError(op)
+
+
+def exec_chain(case) -> Soft:
+    s = Soft("C20/chain/")
+    root = _tmpdir()
+    try:
+        _chain(s, case, root)
+    finally:
+        shutil.rmtree(root, ignore_errors=True)
+    return s
+
+
+def _chain(s, case, root):
+    t, j, p = case["t"], case["j"], case["p"]
+    step0 = case["ops"][0]
+    use_ix = index_of(t) is not None and step0.get("ix")
+    recv = indexed_view(t) if use_ix else t
+    ok, T = s.call("make_table", make_real, t, bool(use_ix))
+    ok2, J = s.call("make_table", make_real, j)
+    if not (ok and ok2):
+        return
+    if not compare(s, "make_table", T, recv["header"], recv["rows"], brief(recv), api=False, index=("kept", recv["ix"]) if use_ix else "skip"):
+        return
+    out = first_step(s, step0, recv, j, p, T, J)
+    if out is None:
+        return
+    res, m, index, sig, what = out
+    first = sig.split("[")[0]
+    s.cls("first:" + first)
+    # what the result says about its index decides how the model lists the columns
+    ix = None
+    if index != "skip":
+        usable, ix = check_index(s, sig, res, index, what)
+        if not usable:
+            return
+    if ix is not None and ix in m["header"]:
+        pos = [m["header"].index(ix)] + [i for i, c in enumerate(m["header"]) if c != ix]
+        m = dict(m, header=[m["header"][i] for i in pos], kinds=[m["kinds"][i] for i in pos], rows=[[r[i] for i in pos] for r in m["rows"]])
+        m["ix"] = ix
+        s.cls("intermediate:indexed")
+    if not compare(s, sig, res, m["header"], m["rows"], what):
+        return
+    ok, title = s.call(sig + "/observe", lambda: (res.title or "", res.legend or ""))
+    if not ok:
+        return
+    m["title"], legend = title
+    nrows = len(m["rows"])
+    s.cls("intermediate:zero-row" if nrows == 0 else "intermediate:one-row" if nrows == 1 else "intermediate:rows>=2")
+    if any(v is None for r in m["rows"] for v in r):
+        s.cls("intermediate:missing")
+    # ---- the result re-enters operations
+    s.prefix = f"C20/chain/after-{first}/"
+    tail = m["rows"][: 1 + step0["b"] % 3][::-1]
+    rot = step0["c"] % len(m["header"])
+    order = list(range(len(m["header"])))
+    order = order[rot:] + order[:rot]
+    p2 = {"header": [m["header"][i] for i in order], "kinds": [m["kinds"][i] for i in order], "rows": [[r[i] for i in order] for r in tail], "title": "tail"}
+    ok, P2 = s.call("make_table", make_real, p2)
+    if not ok:
+        return
+    done = 0
+    for step in case["ops"][1:]:
+        fn = globals()["op_" + step["op"]]
+        if m.get("ix") and step["op"] not in INDEXED_OPS:
+            continue
+        ran = fn(s, step, m, j, p2, res, J, P2)
+        if ran:
+            done += 1
+            s.cls("second:" + step["op"])
+            s.cls(f"chain:{first}->{step['op']}")
+            compare(s, step["op"] + "/receiver-mutated", res, m["header"], m["rows"], f"intermediate result after {step['op']}", api=False)
+    # ---- the result is written and loaded
+    what0 = f"result of {what}"[:700]
+    lkw = _load_kwargs(m["title"], legend, m.get("ix"))
+    names = [f for f in case["formats"] if f not in ("json", "pickle")]
+    done += _write_load_delimited(s, res, m, root, names, case["sep"], lkw, what0, False)
+    if any(f in ("json", "pickle") for f in case["formats"]):
+        done += _write_load_strict(s, res, m, root, m.get("ix"), what0, False, only=[f for f in case["formats"] if f in ("json", "pickle")])
+    compare(s, "write/receiver-mutated", res, m["header"], m["rows"], "intermediate result after writing", api=False)
+    s.evals = max(1, done)
+    kinds = m["kinds"]
+    s.nontrivial = nrows >= 2 and len(m["header"]) >= 2 and done >= 2
+
+
 # ---------------------------------------------------------- roundtrip sub
 def _parses_as(text, got):
     """True when a Python numeric/bool/None literal parser reads ``text`` as the value ``got``"""
@@ -1249,6 +1542,8 @@ def _deep(v):
 def _text_circumstance(text, sep):
     import ast
 
+    if "\n" in text or "\r" in text:
+        return "line-break"
     try:
         ast.parse(text.lstrip(" \t"), mode="eval")
         return "python-expression"  # the text is syntactically a Python expression (never executed here)
@@ -1328,9 +1623,17 @@ def call_io(s: Soft, sig, fn):
         return False, e
 
 
+def _tmpdir():
+    """per-case directory for the files; memory backed when available (every Table.write makes its own
+    temporary directory next to the file, which makes a journalled disk the bottleneck)"""
+    if os.path.isdir("/dev/shm") and os.access("/dev/shm", os.W_OK):
+        return tempfile.mkdtemp(prefix="verif_c20.", dir="/dev/shm")
+    return tempfile.mkdtemp(prefix="c20.", dir=SCRATCH if os.path.isdir(SCRATCH) else None)
+
+
 def exec_roundtrip(case) -> Soft:
     s = Soft("C20/roundtrip/")
-    root = tempfile.mkdtemp(prefix="c20.", dir=SCRATCH if os.path.isdir(SCRATCH) else None)
+    root = _tmpdir()
     try:
         _roundtrip(s, case, root)
     finally:
@@ -1338,8 +1641,198 @@ def exec_roundtrip(case) -> Soft:
     return s
 
 
-def _roundtrip(s, case, root):
+def _beyond_int64(v):
+    """an integer, or text that Python's int() reads as an integer, outside the int64 range"""
+    if isinstance(v, bool) or v is None or isinstance(v, float):
+        return False
+    if isinstance(v, str):
+        try:
+            v = int(v)
+        except ValueError:
+            return False
+    return not INT64[0] <= v <= INT64[1]
+
+
+def _cell_tags(header, rows):
+    """circumstance tags of a table for the delimited formats (one signature family per confirmed cause)"""
+    cells = [v for r in rows for v in r]
+    tags = ""
+    if any(isinstance(v, str) and "\r" in v for v in list(header) + cells):
+        tags += "[cell-with-cr]"
+    if any(_beyond_int64(v) for v in cells):
+        tags += "[integer-beyond-int64]"
+    return tags
+
+
+def _load_kwargs(title, legend, ix):
+    lkw = {}
+    if title:
+        lkw["with_title"] = True
+    if legend:
+        lkw["with_legend"] = True
+    if ix is not None:
+        lkw["index_name"] = ix
+    return lkw
+
+
+def _write_load_delimited(s, T, tab, root, names, sep_override, lkw, what0, with_index):
+    """Table.write + load_table for the delimited file names given; returns the number of files read"""
+    nrows = len(tab["rows"])
+    zr = "[zero-row]" if nrows == 0 else ""
+    tags = _cell_tags(tab["header"], tab["rows"])
+    evals = 0
+    for fn in names:
+        from cogent3 import load_table
+
+        path = os.path.join(root, fn)
+        wkw = {"sep": sep_override} if fn.endswith(".txt") else {}
+        sep = sep_override if fn.endswith(".txt") else ("\t" if ".tsv" in fn else ",")
+        # one signature family for all delimited files (the format is in the message); reading what was
+        # written under a bz2 name has its own signature for the write/load steps
+        csig = "delimited" + zr + tags
+        sig = "delimited-bz2" + tags if fn.endswith("bz2") else csig
+        ok, _ = s.call(sig + "/write", lambda: T.write(path, **wkw))
+        if not ok:
+            continue
+        rkw = dict(lkw)
+        if wkw:
+            rkw["sep"] = sep
+        ok, got = call_io(s, sig + "/load", lambda: load_table(path, **rkw))
+        evals += 1
+        if ok:
+            check_loaded(s, csig, got, tab, sep, False, f"write/load_table {fn} of {what0}", with_index=with_index)
+    return evals
+
+
+def _write_load_strict(s, T, tab, root, ix, what0, with_index, only=("json", "pickle")):
     from cogent3 import load_table
+
+    evals = 0
+    for name, fn in (("json", "t.json"), ("pickle", "t.pickle")):
+        if name not in only:
+            continue
+        path = os.path.join(root, fn)
+        ok, _ = s.call(name + "/write", lambda: T.write(path))
+        if not ok:
+            continue
+        ok, got = call_io(s, name + "/load", lambda: load_table(path))
+        evals += 1
+        if ok:
+            check_loaded(s, name, got, tab, None, True, f"write/load_table {fn} of {what0}", with_index=with_index)
+            ok, gi = s.call(name + "/observe", lambda: got.index_name)
+            if ok:
+                s.eq(gi, ix, name + "/index_name", what0)
+    return evals
+
+
+DELIMITED_NAMES = ["t.tsv", "t.csv", "t.tsv.gz", "t.csv.gz", "t.csv.bz2", "t.tsv.bz2", "t.txt"]
+
+
+def _write_variant(s, T, tab, root, case, lkw, what0):
+    """one of the other documented ways of calling Table.write"""
+    from cogent3 import load_table
+
+    wv = case.get("wv")
+    if wv is None:
+        return 0  # cases recorded before the field existed
+    label, fn, wkw, out, how, strict = WRITE_VARIANTS[wv % len(WRITE_VARIANTS)]
+    if label == "writer":
+        return _write_with_writer(s, T, tab, root, what0)
+    sep = None
+    wkw = {k: (case["sep"] if v == "SEP" else v) for k, v in wkw.items()}
+    how = case["sep"] if how == "SEP" else how
+    # the variant names the signature of the write step; reading and comparing go by the signatures of the
+    # plain calls (same reader, same rules)
+    sig = f"write[{label}]"
+    if strict:
+        csig = lsig = "pickle" if "pickle" in fn else "json"
+    else:
+        csig = "delimited" + ("" if tab["rows"] else "[zero-row]") + _cell_tags(tab["header"], tab["rows"])
+        lsig = csig
+    s.cls("write:" + label)
+    path = os.path.join(root, fn)
+    what = f"write({fn!r}, {wkw!r}) of {what0}"
+    ok, _ = s.call(sig, lambda: T.write(path, **wkw))
+    if not ok:
+        return 1
+    want = os.path.join(root, out)
+    # compress: "gzips the file and appends .gz to the filename (if not already added)"
+    if not s.check(os.path.isfile(want), sig + "/file-missing", f"{what}: no file {out!r}, directory holds {sorted(os.listdir(root))!r}"):
+        return 1
+    if out.endswith(".gz"):
+        with open(want, "rb") as f:
+            magic = f.read(2)
+        if not s.check(magic == b"\x1f\x8b", sig + "/not-gzipped", f"{what}: {out!r} starts with {magic!r}"):
+            return 1
+        if out != fn:
+            s.check(not os.path.exists(path), sig + "/uncompressed-file-left", f"{what}: {fn!r} exists as well")
+    rkw = {}
+    if how is not None and how.startswith("."):
+        # a file without suffix: load_table picks the reader by suffix, so a copy with the suffix is read
+        shutil.copyfile(want, want + how)
+        want += how
+    elif how is not None:
+        rkw["sep"] = sep = how
+    if not strict:
+        rkw.update(lkw)
+        if sep is None:
+            sep = "\t" if ".tsv" in fn else ","
+    ok, got = call_io(s, lsig + "/load", lambda: load_table(want, **rkw))
+    if ok:
+        check_loaded(s, csig, got, tab, sep, strict, what, with_index=True)
+    return 1
+
+
+def _write_with_writer(s, T, tab, root, what0):
+    """Table.write(path, writer=separator_formatter(sep=...)): format.table.separator_formatter "Returns a writer
+    for a delimited tabular file. The writer has a has_header argument ... Default format is string. Does not
+    currently handle Titles or Legends": the file holds the header and one line per row, the cells as str()
+    joined by sep.  Asked only of tables whose text needs no quoting (the formatter does none)."""
+    from cogent3.format.table import separator_formatter
+    from cogent3.parse.table import load_delimited
+
+    header, rows = model_header(tab, True), model_rows(tab, True)
+    texts = list(header) + [v for r in rows for v in r if isinstance(v, str)]
+    if len(header) < 2 or any(ch in v for v in texts for ch in '"\n\r'):
+        return 0
+    seps = [c for c in [",", "\t", ";", "|"] if not any(c in v for v in texts)]
+    if not seps:
+        return 0
+    sep = seps[0]
+    s.cls("write:writer")
+    path = os.path.join(root, "w.txt")
+    sig = "write[writer=]"
+    what = f"write('w.txt', writer=separator_formatter(sep={sep!r})) of {what0}"
+    ok, _ = s.call(sig, lambda: T.write(path, writer=separator_formatter(sep=sep)))
+    if not ok:
+        return 1
+    ok, res = s.call(sig + "/load_delimited", lambda: load_delimited(path, sep=sep))
+    if not ok:
+        return 1
+    hdr, got_rows = res[0], res[1]
+    if not s.eq(list(hdr), header, sig + "/header", what):
+        return 1
+    if not s.eq(len(got_rows), len(rows), sig + "/row-count", f"{what}: rows {got_rows!r}"):
+        return 1
+    for ri, (grow, wrow) in enumerate(zip(got_rows, rows)):
+        if not s.eq(len(grow), len(wrow), sig + "/field-count", f"{what}: row {ri} fields {grow!r}"):
+            return 1
+        for ci, (g, w) in enumerate(zip(grow, wrow)):
+            where = f"{what}: row {ri} column {header[ci]!r} value {w!r} text read {g!r}"
+            if w is None:
+                continue
+            if isinstance(w, bool):
+                s.check(g == str(w), sig + "/cell", where)
+            elif isinstance(w, int):
+                s.check(_as_int(g) == w, sig + "/cell", where)
+            elif isinstance(w, float):
+                s.check(_as_float(g) == w, sig + "/cell", where)
+            else:
+                s.check(g == w, sig + "/cell", where)
+    return 1
+
+
+def _roundtrip(s, case, root):
     from cogent3.parse.table import load_delimited
 
     t = case["t"]
@@ -1348,8 +1841,19 @@ def _roundtrip(s, case, root):
     ok, T = s.call("make_table", make_real, t, ix is not None)
     if not ok:
         return
-    if not compare(s, "make_table", T, model_header(t, True), model_rows(t, True), brief(t), api=False):
+    big_int = any(_beyond_int64(v) for r in rows for v in r if isinstance(v, int))
+    if big_int:
+        s.cls("cell:int-beyond-int64")
+    if not compare(s, "make_table[int-beyond-int64]" if big_int else "make_table", T, model_header(t, True), model_rows(t, True), brief(t), api=False):
         return
+    if big_int:
+        # a column of integers must hold integers (a float column of equal values would be written as 3.0)
+        ok, got = s.call("make_table/observe", observe_rows, T)
+        want = model_rows(t, True)
+        is_int = lambda v: isinstance(getattr(v, "item", lambda: v)(), int)  # noqa: E731
+        bad = [(w, g) for wr, gr in zip(want, got) for w, g in zip(wr, gr) if isinstance(w, int) and not isinstance(w, bool) and not is_int(g)]
+        if not s.check(not bad, "make_table[int-beyond-int64]/rows", f"{brief(t)}: integer cells held as {bad[:3]!r}"):
+            return
     nrows = len(rows)
     s.cls("zero-row" if nrows == 0 else "one-row" if nrows == 1 else "rows>=2")
     if ix is not None:
@@ -1363,7 +1867,7 @@ def _roundtrip(s, case, root):
     text_cells = [v for r in rows for v, k in zip(r, kinds) if k == "text" and isinstance(v, str)]
     special = False
     for v in text_cells:
-        for ch, nm in ((",", "comma"), ("\t", "tab"), ('"', "dquote"), ("'", "squote"), (case["sep"], "sep-override")):
+        for ch, nm in ((",", "comma"), ("\t", "tab"), ('"', "dquote"), ("'", "squote"), (case["sep"], "sep-override"), ("\n", "lf"), ("\r", "cr")):
             if ch in v:
                 s.cls("cell:" + nm)
                 special = True
@@ -1371,61 +1875,25 @@ def _roundtrip(s, case, root):
             s.cls("cell:empty")
         elif v != v.strip():
             s.cls("cell:blank-edge")
+        if _beyond_int64(v):
+            s.cls("cell:digits-beyond-int64")
     if any(ch in h for h in header for ch in ',\t"'):
         s.cls("header:delimiter-or-quote")
     for ci, k in enumerate(kinds):
         col = [r[ci] for r in rows if r[ci] is not None]
         if k == "text" and col and all(_literal_like(v) for v in col):
             s.cls("text-column-all-literal-like")
+            if any(_beyond_int64(v) for v in col):
+                s.cls("text-column-all-digits-beyond-int64")
     has_num = any(k in ("int", "float", "ki") for k in kinds)
     has_text = any(k in ("text", "ks") for k in kinds)
     s.nontrivial = special or (nrows >= 2 and has_num and has_text)
     what0 = brief(t) + f" title={t.get('title')!r} legend={t.get('legend')!r} index={ix!r}"
-    lkw = {}
-    if t.get("title"):
-        lkw["with_title"] = True
-    if t.get("legend"):
-        lkw["with_legend"] = True
-    if ix is not None:
-        lkw["index_name"] = ix
+    lkw = _load_kwargs(t.get("title"), t.get("legend"), ix)
     zr = "[zero-row]" if nrows == 0 else ""
-    formats = [
-        ("tsv", "t.tsv", {}, "\t"),
-        ("csv", "t.csv", {}, ","),
-        ("tsv.gz", "t.tsv.gz", {}, "\t"),
-        ("csv.gz", "t.csv.gz", {}, ","),
-        ("csv.bz2", "t.csv.bz2", {}, ","),
-        ("txt-sep", "t.txt", {"sep": case["sep"]}, case["sep"]),
-    ]
-    evals = 0
-    for name, fn, wkw, sep in formats:
-        path = os.path.join(root, fn)
-        # one signature family for all delimited files (the format is in the message); reading what was
-        # written under a bz2 name has its own signature for the write/load steps
-        csig = "delimited" + zr
-        sig = "delimited-bz2" if name.endswith("bz2") else csig
-        ok, _ = s.call(sig + "/write", lambda: T.write(path, **wkw))
-        if not ok:
-            continue
-        rkw = dict(lkw)
-        if "sep" in wkw:
-            rkw["sep"] = wkw["sep"]
-        ok, got = call_io(s, sig + "/load", lambda: load_table(path, **rkw))
-        evals += 1
-        if ok:
-            check_loaded(s, csig, got, t, sep, False, f"write/load_table {fn} of {what0}", with_index=True)
-    for name, fn in (("json", "t.json"), ("pickle", "t.pickle")):
-        path = os.path.join(root, fn)
-        ok, _ = s.call(name + "/write", lambda: T.write(path))
-        if not ok:
-            continue
-        ok, got = call_io(s, name + "/load", lambda: load_table(path))
-        evals += 1
-        if ok:
-            check_loaded(s, name, got, t, None, True, f"write/load_table {fn} of {what0}", with_index=True)
-            ok, gi = s.call(name + "/observe", lambda: got.index_name)
-            if ok:
-                s.eq(gi, ix, name + "/index_name", what0)
+    evals = _write_load_delimited(s, T, t, root, DELIMITED_NAMES, case["sep"], lkw, what0, True)
+    evals += _write_load_strict(s, T, t, root, ix, what0, True)
+    evals += _write_variant(s, T, t, root, case, lkw, what0)
     # display formats -> load_delimited (cells stay text)
     for name, sep in (("to_csv", ","), ("to_tsv", "\t")):
         wt, wl = bool(t.get("title")), bool(t.get("legend"))
@@ -1457,9 +1925,11 @@ def _literal_like(text):
 def _display_circumstance(tab, sep):
     """deterministic description of what in the table needs quoting"""
     header, rows = model_header(tab, True), model_rows(tab, True)
+    cells = [v for r in rows for v in r if isinstance(v, str)]
+    if any("\r" in v for v in cells + list(header)):
+        return "[cell-with-cr]"
     if any(sep in h or '"' in h for h in header):
         return "[header-needs-quoting]"
-    cells = [v for r in rows for v in r if isinstance(v, str)]
     if any('"' in v for v in cells):
         return "[cell-with-dquote]"
     if len(header) == 1 and any(v in ("", None) for r in rows for v in r):
@@ -1522,13 +1992,14 @@ def _as_float(text):
 SUBS = [
     Sub("ops", exec_ops, strategy=op_cases(), quick=2000, thorough=320_000, shards_quick=16),
     Sub("roundtrip", exec_roundtrip, strategy=rt_cases(), quick=1000, thorough=160_000, shards_quick=16),
+    Sub("chain", exec_chain, strategy=chain_cases(), quick=800, thorough=160_000, shards_quick=16),
 ]
 
 KNOWN_PREDICATES = {}
 
 META = {
     "technique": "Hypothesis-generated tables and operation arguments against a list-of-rows model written in the check; write/load round trips through real files in every supported delimited, compressed, JSON and pickle format",
-    "level_text": "Each run builds thousands of small tables with mixed column kinds, duplicate keys, missing values, zero rows and awkward text (delimiters, quotes, blanks, literal-looking cells), applies generated sorts, filters, counts, joins (natural, by name, by position, differently named keys, one side given, index default), appends (any column order, int with float), transpositions, column/row selections and derived columns, on the plain table and on the same table built with an index column, and compares header, shape, every cell and the documented state of the result's index with the same operation on a plain list of rows; every table is also written in ten file formats and read back, comparing header and every cell.",
-    "level_note": "Trusts the row-list model in the check (about 400 lines). Bounded to 8 rows, 6 columns, ASCII text without line breaks; title/legend text itself is not asserted.",
+    "level_text": "Each run builds thousands of small tables with mixed column kinds, duplicate keys, missing values, zero rows and awkward text (delimiters, quotes, blanks, line feeds and carriage returns, literal-looking cells, digit strings and integers beyond the int64 range), applies generated sorts, filters, counts, joins (natural, by name, by position, differently named keys, one side given, index default), appends (any column order, int with float), transpositions, column/row selections and derived columns, on the plain table and on the same table built with an index column, and compares header, shape, every cell and the documented state of the result's index with the same operation on a plain list of rows; results of joins, appends, transpositions, filters and sorts are fed back into two further operations and into a write/load cycle; every table is also written in eleven file formats plus one further calling convention of Table.write (writer=, compress=True, format= or sep= on a name without suffix) and read back, comparing header and every cell.",
+    "level_note": "Trusts the row-list model in the check (about 500 lines). Bounded to 8 rows (48 after a cross join), 6 columns (12 after a join), ASCII text; line breaks and integers beyond int64 only in the round trip sub-check; chains are two operations deep; title/legend text itself is not asserted.",
     "design_ref": "DESIGN.md section 1, C20",
 }
